@@ -8,4 +8,6 @@ ProgsSmall == << <<E("a", 0), D("b")>>, <<E("b", 6), E("a", 2)>>, <<C>> >>
 ProgsBig == << <<E("a", 0), D("b"), E("c", 5)>>, <<E("b", 6), E("a", 2), D("a")>>, <<E("b", 0), C>> >>
 
 ProgsLive == << <<E("a", 0), E("b", 6)>>, <<E("a", 2), D("b")>>, <<C>> >>
+ProgsLiveSmall == << <<E("a", 0)>>, <<E("a", 2), D("a")>>, <<C>> >>
+ProgsTrace == << <<>>, <<>>, <<>>, <<>> >>      \* trace validation: up to 4 clients, their operations come from the trace
 =============================================================================
